@@ -54,6 +54,8 @@ type Server struct {
 	nconn       int
 	mid         int
 	execs       map[string]int
+	stallsBegun int // "stall" faults that started sleeping / finished sleeping (the command is executed right after)
+	stallsEnded int
 	PushProb    float64 // probability of injecting a data push before a reply
 	UnsubProb   float64 // probability of an unsolicited sunsubscribe notification
 	Faults      []*Fault
@@ -213,6 +215,21 @@ func (s *Server) send(cs *connState, build func(mid string) string, kind string,
 	return cs.w.Flush()
 }
 
+// WaitStalls waits until every stalled command has been picked up again and executed: a command the server has
+// read is executed even if the client has gone away meanwhile, so execution counts are final only after this.
+func (s *Server) WaitStalls() {
+	for i := 0; i < 400; i++ {
+		s.mu.Lock()
+		idle := s.stallsBegun == s.stallsEnded
+		s.mu.Unlock()
+		if idle {
+			break
+		}
+		time.Sleep(10 * time.Millisecond)
+	}
+	time.Sleep(30 * time.Millisecond)
+}
+
 func (s *Server) coin(p float64) bool {
 	s.mu.Lock()
 	defer s.mu.Unlock()
@@ -334,7 +351,13 @@ func (s *Server) serve(id int, conn net.Conn) {
 				s.mu.Unlock()
 				return
 			case "stall":
+				s.mu.Lock()
+				s.stallsBegun++
+				s.mu.Unlock()
 				time.Sleep(fault.Stall)
+				s.mu.Lock()
+				s.stallsEnded++
+				s.mu.Unlock()
 			}
 		}
 		if s.coin(s.PushProb) {
